@@ -3,9 +3,10 @@
     codes - never a crash - and a document is accepted exactly when it breaks none of the documented validation rules, each
     reported code naming a rule the input really breaks."
 
-   read / validate : Model/Validation.v (the code as written); violates : Spec/Rules.v (the documentation page, readings R1-R9);
-   known : Spec/Rules.v (seven structural deviation classes K4..K10, each one a finding with a witness below; K1, K2, K3 were
-   repaired in /repo by c324ed4, d5aa3e7, 89050ae and are covered by the theorems now);
+   read / validate : Model/Validation.v (the code as written); violates : Spec/Rules.v (the documentation page, readings R1-R10);
+   known : Spec/Rules.v (four structural deviation classes K6..K9, each one a finding with a witness below; K1, K2, K3 were
+   repaired in /repo by c324ed4, d5aa3e7, 89050ae and K4, K5, K10 by d67b161, 7653bff, 11fbd19: all six are covered by the
+   theorems now);
    gen_* : Generated/RuleTable.v (re-extracted from the Rust sources and the documentation page on every run).
    The unrestricted statements
         forall d, read d <> RPanic
@@ -41,24 +42,39 @@ Theorem C10_validated_reader_safe_partial : forall d, known d = false ->
   (forall c, In c (map fst all_checks) -> violates c d = false) -> reader_panics d = false.
 Proof. exact reader_safe. Qed.
 
-(* the reader step create_transport_costs on a supplied matrix with `errorCodes`: it fails (E0002 "invalid matrix index") exactly when
-   an entry that is not marked unreachable (code <= 0) lies beyond travelTimes or distances; otherwise both cost vectors have the
-   length of errorCodes; without errorCodes the data is taken as is.  The step has no panicking outcome in the model
-   (`.get(i).ok_or_else(..)?`); that, and the remaining E0002 conditions (run_transport), are validated by the correspondence. *)
+(* the reader step create_transport_costs on a supplied matrix with `errorCodes`: it fails (E0002) exactly when there are fewer
+   codes than distances ("not enough error codes specified", repair f7d2f27 of finding X15) or an entry that is not marked
+   unreachable (code <= 0) lies beyond travelTimes or distances ("invalid matrix index"); otherwise both cost vectors have the
+   length of errorCodes, which covers the distances; without errorCodes the data is taken as is.  The step has no panicking outcome in
+   the model (`.get(i).ok_or_else(..)?`); that, and the remaining E0002 conditions (run_transport), are validated by the correspondence. *)
 Theorem C10_matrix_step_spec : forall m,
-  (matrix_data m = None <-> exists ec, m_errors m = Some ec /\ no_data 0 ec (m_travel m) (m_dist m))
+  (matrix_data m = None <-> exists ec, m_errors m = Some ec /\
+        ((List.length ec < List.length (m_dist m))%nat \/ no_data 0 ec (m_travel m) (m_dist m)))
   /\ (forall ec x y, m_errors m = Some ec -> matrix_data m = Some (x, y) ->
-        List.length x = List.length ec /\ List.length y = List.length ec)
+        List.length x = List.length ec /\ List.length y = List.length ec /\ (List.length (m_dist m) <= List.length ec)%nat)
   /\ (m_errors m = None -> matrix_data m = Some (m_travel m, m_dist m)).
 Proof. exact matrix_step_spec_l. Qed.
 
+(* former finding X15 (a short errorCodes array truncated the matrix, lookups beyond it panicked later): when the step succeeds there is
+   one cost vector per matrix, every vector is a full size x size square (17fc8e9) and no matrix had more distances than that
+   (f7d2f27): nothing is truncated *)
+Theorem C10_transport_ok_is_square_and_covers_distances : forall profiles ms size lens,
+  create_transport_costs profiles ms = TOk size lens ->
+  List.length lens = List.length ms /\ (forall l, In l lens -> l = (size * size)%nat)
+  /\ (forall m, In m ms -> (List.length (m_dist m) <= size * size)%nat).
+Proof. exact transport_ok_square_l. Qed.
+
 (* the step in front of validation when no routing matrix is supplied (map_to_problem_with_approx): with an index location nothing
-   is approximated, so it cannot panic (the document then gets E1503, and E1502 when coordinates are present too); with coordinates
-   only it needs a profile and positive speeds (known classes K10 / X14); `approx_panics` of `read` is this step on reduced documents *)
+   is approximated, so it cannot panic (the document then gets E1503, and E1502 when coordinates are present too); without any
+   profile nothing is approximated either (repair 11fbd19 of finding K10: validation then reports E1501); positive speeds never
+   panic; the only panicking inputs left are coordinate-only documents with a profile and an explicit speed <= 0 (known class X14);
+   `approx_panics` of `read` is this step on reduced documents (no explicit speeds): it never panics *)
 Theorem C10_prevalidation_guard :
   (forall profiles speeds, pre_validation_panics true profiles speeds = false)
-  /\ (forall profiles speeds, profiles <> [] -> (forall s, In s speeds -> 0 < s) -> pre_validation_panics false profiles speeds = false)
-  /\ (forall d, approx_panics d = pre_validation_panics false (d_profiles d) []).
+  /\ (forall has_indices speeds, pre_validation_panics has_indices [] speeds = false)
+  /\ (forall has_indices profiles speeds, (forall s, In s speeds -> 0 < s) -> pre_validation_panics has_indices profiles speeds = false)
+  /\ (forall profiles speeds, pre_validation_panics false profiles speeds = true <-> profiles <> [] /\ exists s, In s speeds /\ s <= 0)
+  /\ (forall d, approx_panics d = false).
 Proof. exact prevalidation_l. Qed.
 
 (* rule tables: every implemented rule is documented and vice versa, no rule is called twice, every defined rule is called,
@@ -95,11 +111,16 @@ Theorem C10_fixed_K1_K2_K3_regression :
   /\ known w_k2_panic = false /\ read w_k2_panic = RErr [1103]
   /\ known w_k3 = false /\ read w_k3 = RErr [1302; 1303; 1307].
 Proof. exact fixed_regression_l. Qed.
-(* K4..K7, K9: documents that break no documented rule, pass validation and panic in the reader *)
-Theorem C10_read_total_K4_refuted : exists d, k4_start_latest_bad d = true /\ breaks_no_rule d /\ validate d = VOk /\ read d = RPanic.
-Proof. exists w_k4. exact k4_witness. Qed.
-Theorem C10_read_total_K5_refuted : exists d, k5_offset_arity d = true /\ breaks_no_rule d /\ validate d = VOk /\ read d = RPanic.
-Proof. exists w_k5. exact k5_witness. Qed.
+(* K4 (unparsable start.latest: no rule, read_fleet unwrapped), K5 (optional offset break that is not a pair: read_optional_breaks
+   panicked), K10 (no profile and no matrix: the approximation asserted before validation): repaired in /repo by d67b161, 7653bff,
+   11fbd19; the `_refuted` witnesses C10_read_total_K4_refuted, C10_read_total_K5_refuted, C10_read_total_K10_refuted no longer hold and
+   were removed.  Their documents are outside `known` now; validation rejects them with the documented codes: *)
+Theorem C10_fixed_K4_K5_K10_regression :
+  known w_k4 = false /\ validate w_k4 = VErr [1302] /\ read w_k4 = RErr [1302]
+  /\ known w_k5 = false /\ validate w_k5 = VErr [1303] /\ read w_k5 = RErr [1303]
+  /\ known w_k10 = false /\ violates 1501 w_k10 = true /\ read w_k10 = RErr [1501; 1505].
+Proof. exact fixed_regression2_l. Qed.
+(* K6, K7, K9: documents that break no documented rule, pass validation and panic in the reader *)
 Theorem C10_read_total_K6_refuted : exists d, k6_capacity_empty d = true /\ breaks_no_rule d /\ validate d = VOk /\ read d = RPanic.
 Proof. exists w_k6. exact k6_witness. Qed.
 Theorem C10_read_total_K7_refuted : exists d, k7_over8 d = true /\ breaks_no_rule d /\ validate d = VOk /\ read d = RPanic.
@@ -109,6 +130,3 @@ Proof. exists w_k9. exact k9_witness. Qed.
 (* K8  pickups and deliveries with empty demand vectors: E1102 reported although the sums are equal *)
 Theorem C10_codes_exact_K8_refuted : exists d, k8_empty_demand_vectors d = true /\ read d = RErr [1102] /\ violates 1102 d = false.
 Proof. exists w_k8. exact k8_witness. Qed.
-(* K10 no profile and no matrix: E1501 is broken but the approximated matrices assert before validation runs *)
-Theorem C10_read_total_K10_refuted : exists d, k10_no_profiles d = true /\ violates 1501 d = true /\ read d = RPanic.
-Proof. exists w_k10. exact k10_witness. Qed.
